@@ -270,7 +270,27 @@ def rule_eq2(prog):
                 lhs = (name[0], lang, ('raw', 0))
                 name = name[0]
             n += 1
-            f, outs = extract(prog, ci, 'clone', kids, rule='R-EQ-2')
+            try:
+                f, outs = extract(prog, ci, 'clone', kids, rule='R-EQ-2')
+            except Inconclusive as e:
+                # a clone made by the copy module: a positive case
+                if 'copy.copy' in str(e) or 'copy.deepcopy' in str(e):
+                    fm = prog.method(ci, 'clone')
+                    deep = 'copy.deepcopy' in str(e)
+                    r.fail(Finding(
+                        PROP, 'R-EQ-2', fm.where(), fm.short(),
+                        'copy-module:%s' % ('deep' if deep else 'shallow'),
+                        'clone of a %s.%s formula starts from copy.%s(self)'
+                        ': %s' % (lang, name, 'deepcopy' if deep else 'copy',
+                                  'copies made by the copy module bypass the '
+                                  'constructors (sort checks, height)' if deep
+                                  else 'the shallow copy shares the list of '
+                                  'operands with the original, so filling it '
+                                  'with cloned operands rewires the original '
+                                  'and the clone shares every node below '
+                                  'the root')))
+                    continue
+                raise
             want = lhs[:2] + tuple(('hole', x[1]) for x in lhs[2:])
             got = [t for (t, p) in outs]
             r.inst(lang=lang, cls=name, method=f.short(),
